@@ -61,6 +61,18 @@ class Effects:
 
     # ---- direct (intra-body) effect sites: list of (point, effect, detail)
     def direct_sites(self, b):
+        """Effect sites of b. The fsync of a handle opened on the WAL *directory* is labelled DIRFSYNC, so
+        that FSYNC always means "the WAL file's data was synced"."""
+        key = ('rel', b.id)
+        if key in self._direct:
+            return self._direct[key]
+        raw = self._raw_sites(b)
+        if b.id in self.dirsync_bodies():
+            raw = [(p, 'DIRFSYNC' if e == 'FSYNC' else e, d) for (p, e, d) in raw]
+        self._direct[key] = raw
+        return raw
+
+    def _raw_sites(self, b):
         if b.id in self._direct:
             return self._direct[b.id]
         out = []
@@ -129,8 +141,8 @@ class Effects:
             return self._dirsync_bodies
         res = set()
         for b in self.f.bodies.values():
-            opens = [cs for (p, e, cs) in self.direct_sites(b) if e == 'OPENRO' and cs.name.startswith('std::fs::OpenOptions::open')]
-            syncs = [cs for (p, e, cs) in self.direct_sites(b) if e == 'FSYNC']
+            opens = [cs for (p, e, cs) in self._raw_sites(b) if e == 'OPENRO' and cs.name.startswith('std::fs::OpenOptions::open')]
+            syncs = [cs for (p, e, cs) in self._raw_sites(b) if e == 'FSYNC']
             if not opens or not syncs:
                 continue
             ok = False
@@ -317,7 +329,7 @@ class Effects:
         return sorted(set(pts))
 
     def _dirsync_must(self, node):
-        return self.must(node, 'OPENRO') and self.must(node, 'FSYNC')
+        return self.must(node, 'OPENRO') and self.must(node, 'DIRFSYNC')
 
     def call_must(self, b, cs, effect, ctx=None):
         if cs.node is None:
